@@ -301,7 +301,7 @@ end
 
 /-! ### Driver: integer keys, elements are `(tag, key)` pairs -/
 
-/-- Numbers under `partial_cmp` / `==` (no NaN reaches a Jsonnet value). -/
+/-- Numbers under the `f64` comparison / `==` (no NaN reaches a Jsonnet value). -/
 def intOrd : KeyOrd Int := { cmp := fun a b => compare a b, eqv := fun a b => a == b }
 
 def showErr : Err → String
